@@ -26,7 +26,7 @@ META = dict(
         '(no control-eligible, no treatment-eligible, all fixed, ...); iroas '
         'in {2.0, 0.0}; n_pretest_max and n_designs symbolic',
         thorough='adds all 7^3 x {gratio, tsize, share, budget} symbolic, '
-        '7^4 matrices on P7, panels P3 P4 P8 P9'),
+        'panels P3 P4 P8 P9 with seeded tables'),
     outside='panels concrete (listed family, each meeting the precondition: '
     '>= n_test+3 points in the window, non-constant series); per-call '
     'wall-clock guard 20 s (replayed with 60 s)',
@@ -89,9 +89,6 @@ def jobs(tier, seed):
         for r0 in RT:
           out.append(_mk('P1', m, s, 'sym', 'all343-' + r0,
                          elig_fix={'0': r0}, max_s=2500))
-      for r0 in RT:
-        out.append(_mk('P7', m, [], 'sym', 'all2401-' + r0,
-                       elig_fix={'0': r0}, max_s=2800))
       for panel in ['P3', 'P4', 'P8', 'P9']:
         n = 3 if panel in ('P4', 'P9') else 4
         for i in range(4):
